@@ -531,13 +531,92 @@ def r_state(c):
         "the answer of == depends on which objects were compared earlier in the process "
         "(an id()-keyed entry survives the objects it was made for)")
 
+STRUCTURAL_CALLS = {"zip", "len", "all", "any", "isinstance", "frozenset", "set", "type",
+                    "sorted", "tuple", "list", "enumerate", "getattr", "id", "dict"}
+
+
+def r_foreign_predicate(c):
+    """fields are compared with == / the memoised recursion, which is what the hash
+    is computed from; a semantic predicate (affine shape equality, np.array_equal,
+    allclose, ...) equates values that hash differently"""
+    m = c.model
+    ci = m.cls(EQ)
+    n = 0
+    for mn, fd in sorted(ci.methods.items()):
+        if not (mn.startswith("map_") or mn.startswith("_map_") or mn.startswith("handle_")):
+            continue
+        ps = [a.arg for a in fd.args.args[1:3]]
+        if len(ps) < 2:
+            continue
+        n += 1
+        p1, p2 = ps
+
+        def rooted(e, p):
+            return any(isinstance(x, ast.Name) and x.id == p for x in ast.walk(e))
+        bad = []
+        for call in ast.walk(fd):
+            if not isinstance(call, ast.Call):
+                continue
+            f = ast.unparse(call.func)
+            if f.startswith("self.") or f.split(".")[-1] in STRUCTURAL_CALLS \
+                    or f.startswith("super()"):
+                continue
+            args = list(call.args) + [k.value for k in call.keywords]
+            if any(rooted(a, p1) for a in args) and any(rooted(a, p2) for a in args):
+                bad.append(call)
+        c.check(not bad, "R04-PAIRING", f"EqualityComparer.{mn}",
+                "compares-structurally-not-by-predicate", m.loc(ci.module, fd),
+                f"`{m.frag(bad[0], 70) if bad else ''}` decides (part of) the comparison "
+                "of the two operands by a predicate other than == / self.rec: values it "
+                "equates (e.g. shapes n+m and m+n) still hash differently, so equal "
+                "expressions get different hashes")
+    if n < 25:
+        raise AnalysisError(f"only {n} comparison handlers scanned (floor 25)")
+
+
+def r_nan(c):
+    """a NaN scalar never enters an expression tree raw (NaN != NaN would make an
+    expression unequal to its own copy): the test that routes scalars to the
+    symbolic NaN node applies to EVERY scalar, not to some scalar types"""
+    m = c.model
+    from pta.pat import find
+    fd = m.func("pytato.utils.update_bindings_and_get_broadcasted_expr")
+    where = m.loc("pytato.utils", fd)
+    ap = fd.args.args[0].arg
+    sc = [i for i in fd.body if isinstance(i, ast.If)
+          and ast.unparse(i.test) == f"isinstance({ap}, SCALAR_CLASSES)"]
+    if len(sc) != 1:
+        raise AnalysisError("anchor vanished: scalar branch of "
+                            "update_bindings_and_get_broadcasted_expr")
+    nan_ifs = [i for i in sc[0].body if isinstance(i, ast.If) and any(
+        isinstance(r, ast.Return) and isinstance(r.value, ast.Call)
+        and ast.unparse(r.value.func).split(".")[-1] == "NaN" for r in ast.walk(i))]
+    ok = False
+    if len(nan_ifs) == 1:
+        t = ast.unparse(nan_ifs[0].test)
+        ok = t in (f"np.isnan({ap})", f"numpy.isnan({ap})", f"{ap} != {ap}",
+                   f"math.isnan({ap})", f"cmath.isnan({ap})")
+        # every raw `return <scalar>` of the branch is in the else of that test
+        raw = [r for r in ast.walk(sc[0]) if isinstance(r, ast.Return)
+               and ast.unparse(r.value) == ap]
+        ok = ok and all(any(r is x for s_ in nan_ifs[0].orelse for x in ast.walk(s_))
+                        for r in raw)
+    c.check(ok, "R04-NAN", "utils.update_bindings_and_get_broadcasted_expr",
+            "every-nan-scalar-becomes-the-symbolic-node", where,
+            "the NaN test in front of `return <scalar>` is not a plain isnan of the scalar "
+            f"(`{ast.unparse(nan_ifs[0].test) if nan_ifs else None}`): NaNs of the scalar "
+            "types it leaves out (np.float32, complex, ...) stay raw in IndexLambda.expr, "
+            "and an expression containing one is not equal to its own rebuilt or unpickled "
+            "copy")
+
+
 SPEC = Spec(
     prop="C04",
     rules=[r_exhaustive, r_eq_field, r_pairing, r_memo_and_identity, r_hash_order,
-           r_pickle, r_state],
+           r_pickle, r_state, r_foreign_predicate, r_nan],
     floors={"R04-EXHAUSTIVE": 23, "R04-EQ-FIELD": 100, "R04-HASH-SUBSET": 80,
             "R04-PAIRING": 80, "R04-PICKLE": 5, "R04-HASH-ORDER": 3, "R04-NEQ": 20,
-            "R04-MEMO-KEY": 2, "R04-HASH-IDENTITY": 1, "R04-STATE": 5},
+            "R04-MEMO-KEY": 2, "R04-HASH-IDENTITY": 1, "R04-STATE": 5, "R04-NAN": 1},
     explanation=(
         "Static (kind, field) enumeration over /repo/pytato: for every concrete "
         "node kind K the EqualityComparer handler the dispatcher would select is "
